@@ -663,8 +663,8 @@ func genT(r *common.Rng, k, total int, thorough bool) tcase {
 		maxRecs = 9
 	}
 	n := r.Intn(maxRecs + 1)
-	avoidMissing := r.Bool()        // no "expected here, not held, no operation" record (K02 situation)
-	allowMismatch := r.Chance(1, 5) // pin mode differs from the IPFS pin type
+	avoidMissing := !r.Chance(3, 20) // mostly no "expected here, not held, no operation" record (K02 situation)
+	allowMismatch := r.Chance(1, 5)  // pin mode differs from the IPFS pin type
 	consistentOnly := r.Chance(3, 4)
 	next := 0
 	for j := 0; j < n; j++ {
